@@ -213,3 +213,23 @@ pub fn count_class(n: u64) -> &'static str {
 		"count>=2^30"
 	}
 }
+
+/// Type selection for the random drivers: half of the cases pick uniformly over the zoo entries, the other
+/// half pick a type *family* first (so that families with few zoo entries — strings, bytes, durations, bit
+/// sequences — are not starved by the many tuple/array/integer entries), then an entry of that family.
+pub fn pick_entry<'a>(g: &mut psc_model::gen::Gen, entries: &[&'a Entry]) -> &'a Entry {
+	if g.bool() {
+		return *g.pick(entries);
+	}
+	let mut fams: Vec<&'static str> = Vec::with_capacity(32);
+	for e in entries {
+		let f = e.ty.family();
+		if !fams.contains(&f) {
+			fams.push(f);
+		}
+	}
+	let f = *g.pick(&fams);
+	let n = entries.iter().filter(|e| e.ty.family() == f).count();
+	let k = g.below(n);
+	entries.iter().filter(|e| e.ty.family() == f).nth(k).copied().unwrap()
+}
